@@ -28,7 +28,7 @@ def run(tier, seed):
     # ---------------- T-gen: evaluate the verified checker on every extracted method
     lines = [i["line"] for i in items if i["line"]]
     outs = iter(run_parallel(drv, lines, jobs=8))
-    n_ok = n_fail = 0
+    n_ok = n_fail = n_known = 0
     for it in items:
         if it["role"] == "consts":
             if it["consts_rust"][:len(it["consts_wowm"])] != it["consts_wowm"] and dict(it["consts_rust"]) != dict(it["consts_wowm"]):
@@ -62,6 +62,8 @@ def run(tier, seed):
         if m:
             rp.update({"input_raw_value": int(m.group(1)), "rhs": int(m.group(2)), "got": m.group(4), "want": m.group(5),
                        "replay": f"{it['type']}::new({m.group(1)}).{it['method']}() -> inner {m.group(4)}, the property demands {m.group(5)}"})
+        if any(k.get("status") == "known" and k.get("key") == key for k in rep.known):
+            n_known += 1
         rep.violation(key, f"{it['type']}::{it['method']} is not the set-algebra operation the property demands ({r})", rp, no_input=not m)
     # ---------------- T-corr: the real public API on sampled raw values
     eitems, _ = rust_enums.extract(corpus)
@@ -133,7 +135,8 @@ def run(tier, seed):
                           {"type": t["type"], "file": t["file"], "input_raw_value": a, "rhs": b, "differences": diffs[:6], "replay_cmd": f"echo '{hq}' | {har}"})
     role_count = collections.Counter(i["role"] for i in items)
     rep.coverage = {
-        "obligations": po["obligations"] + len(items), "discharged": po["discharged"] + n_ok,
+        "obligations": po["obligations"] + len(items) - n_known, "discharged": po["discharged"] + n_ok,
+        "obligations_failing_by_known_finding": n_known,
         "checker_cmd": "cd /verif/lean && lake build WowVerif.Thm.C12 && python3 /verif/tools/rust_flags.py | wowdrv   # itemOk on every extracted method",
         "trusted_base": TRUSTED_BASE_COMMON + ["tools/rust_flags.py + tools/rustmini.py (transcribe method bodies to BitExpr; unknown text -> `unknown`, which itemOk rejects)",
                                                "tools/wowm.py (independent reader of the wowm sources)",
